@@ -47,6 +47,7 @@ fn main() {
         }));
     }
     let thorough = run.tier == Tier::Thorough;
+    vcommon::en::WRAP_LIES.store(true, std::sync::atomic::Ordering::Relaxed);
     let d = run.tier.pick(1, 2);
     let mut sfx = std_suffixes();
     // trailing data that looks like further SCT entries (a list must not read beyond its declared length)
